@@ -39,7 +39,10 @@ type preset struct {
 }
 
 func (m *Model) GetPositions(opts ...resource.ReadOption) (*traits.OpenClosePositions, error) {
-	allPositions := m.positions.List(opts...) // already sorted by ID aka Direction ordinal
+	// the read mask is relative to OpenClosePositions, not to the stored OpenClosePosition items:
+	// read everything and filter the assembled response, like PullPositions does
+	readRequest := resource.ComputeReadConfig(opts...)
+	allPositions := m.positions.List() // already sorted by ID aka Direction ordinal
 	dst := &traits.OpenClosePositions{
 		States: make([]*traits.OpenClosePosition, len(allPositions)),
 	}
@@ -52,7 +55,7 @@ func (m *Model) GetPositions(opts ...resource.ReadOption) (*traits.OpenClosePosi
 		dst.Preset = preset
 	}
 
-	return dst, nil
+	return readRequest.FilterClone(dst).(*traits.OpenClosePositions), nil
 }
 
 func (m *Model) GetPosition(dir traits.OpenClosePosition_Direction, opts ...resource.ReadOption) (*traits.OpenClosePosition, error) {
